@@ -534,6 +534,34 @@ def const_is(t, v):
 
 
 # ---------------------------------------------------------------------------
+BULK_EDIT_OPS = ("drain", "retain", "retain_mut", "truncate", "clear", "dedup", "sort", "sort_unstable", "sort_by", "sort_by_key",
+                 "swap_remove", "remove", "split_off", "rotate_left", "rotate_right", "reverse", "swap")
+
+
+def bulk_edits(tr):
+    """calls in next() that edit a container field of the traversal struct in bulk (whatever role the field plays): used when
+    the worklist cannot be identified through its pop"""
+    out = []
+    an = tr.an
+    for ev in an.events:
+        if ev["k"] != "call" or not ev["key"] or not ev["args"] or ev.get("pure"):
+            continue
+        if ev["key"].split("::")[-1] not in BULK_EDIT_OPS:
+            continue
+        rr = recv_region(an, ev["args"][0])
+        if rr is not None and isinstance(rr, str) and rr.startswith("A1."):
+            out.append(ev)
+    return out
+
+
+def _undecided_shape(o, tr, msg):
+    eds = bulk_edits(tr)
+    for ev_ in eds:
+        o.check(False, tr, "worklist-edited:" + ev_["key"].split("::")[-1], "a container of pending work is edited in bulk by %s inside next(): "
+                "pending entries other than the one being taken can be dropped or reordered" % ev_["key"].split("::")[-1], ev_["span"])
+    o.undecide(tr, "shape", msg)
+
+
 def rule_schema_bfs(crate, prop, tier):
     o = Obl("SCHEMA-BFS")
     for S, nf in iterator_next_fns(crate):
@@ -555,8 +583,8 @@ def rule_schema_bfs(crate, prop, tier):
                     "element", tr.pops[0]["span"])
             continue
         if not (tr.P1 is not None and M and pv is not None and len(tr.nloops) == 1):
-            o.undecide(tr, "shape", "next() is not written as one pop, one visited array and one loop over "
-                       "out_neighbors(popped vertex); the BFS schema cannot be applied to it")
+            _undecided_shape(o, tr, "next() is not written as one pop, one visited array and one loop over "
+                             "out_neighbors(popped vertex); the BFS schema cannot be applied to it")
             continue
         o.check(True, tr, "shape", "")
         for ev_ in tr.w_edits:
@@ -940,8 +968,8 @@ def rule_schema_dfs(crate, prop, tier):
                     "element", tr.pops[0]["span"])
             continue
         if not (shape or piped):
-            o.undecide(tr, "shape", "next() is not written as one pop, one visited array and one loop over "
-                       "out_neighbors(popped vertex); the stack-DFS schema cannot be applied to it")
+            _undecided_shape(o, tr, "next() is not written as one pop, one visited array and one loop over "
+                             "out_neighbors(popped vertex); the stack-DFS schema cannot be applied to it")
             continue
         o.check(True, tr, "shape", "")
         for ev_ in tr.w_edits:
@@ -1192,8 +1220,8 @@ def rule_schema_dj(crate, prop, tier):
                     "entry (key and vertex of different pops are mixed, or an entry is dropped unexamined)", tr.pops[0]["span"])
             continue
         if not shape:
-            o.undecide(tr, "shape", "next() is not written as one heap pop, one dist array and one loop over "
-                       "out_neighbors_weighted(popped vertex); the lazy-deletion Dijkstra schema cannot be applied to it")
+            _undecided_shape(o, tr, "next() is not written as one heap pop, one dist array and one loop over "
+                             "out_neighbors_weighted(popped vertex); the lazy-deletion Dijkstra schema cannot be applied to it")
             continue
         o.check(True, tr, "shape", "")
         for ev_ in tr.w_edits:
